@@ -580,6 +580,10 @@ func walkStmts(list []ast.Stmt, f *fn, ws wstate) {
 func handOver(ss *ast.SendStmt, worker gor, f *fn, list []ast.Stmt, idx int, plain bool) {
 	lit, ok := ss.Value.(*ast.FuncLit)
 	if !ok {
+		if worker == "GRouter" {
+			// the router's own goroutine (realm table) is not part of this property
+			return
+		}
 		fatal("%s: value sent on an actionChan is not a function literal (%s)", posStr(ss.Pos()), exprStr(ss.Value))
 		return
 	}
